@@ -279,8 +279,13 @@ def parseOp (s : State) (maxHW : Nat) (op : String) : Parsed :=
     has lowered HW earlier in the current metadata fence; `maxHW` = the highest HW the
     implementation showed in this fence. -/
 def judge (ev : Option REvent) (prev cur : Obs) (lowered : Bool) (maxHW : Nat) : String :=
-  let wmBad := judgeWatermarks prev && !judgeWatermarks cur
-  let mBad := judgeMatches prev && !judgeMatches cur
+  -- preservation from GOOD states (the shape of the theorems): once a state predicate is
+  -- broken it has been reported at the event that broke it, and consequences of an
+  -- already broken state (e.g. AdvanceHW over a match that an install left above the LEO)
+  -- are not reported again
+  let good := judgeWatermarks prev && judgeMatches prev && judgeConsistent prev
+  let wmBad := good && !judgeWatermarks cur
+  let mBad := good && !judgeMatches cur
   let hwBad := !judgeHWMono prev cur
   let unchanged := cur.stateText == prev.stateText && cur.replies.isEmpty
   let fenceNow (f : Fence) : Bool :=
@@ -312,7 +317,7 @@ def judge (ev : Option REvent) (prev cur : Obs) (lowered : Bool) (maxHW : Nat) :
   if wmBad then "viol:watermark-order" else
   if mBad then "viol:match-exceeds-leo" else
   if hwBad then "viol:hw-decreased-within-fence" else
-  if !judgeConsistent cur then "viol:pending-order-inconsistent" else
+  if good && !judgeConsistent cur then "viol:pending-order-inconsistent" else
   let exempt := match ev with
     | some (.machine (.quorum ..)) => true
     | some (.install ..) => true
